@@ -395,6 +395,28 @@ def _min_fill(rs: RefSchema, r: tuple, size: dict[str, int]) -> int | None:
     return None
 
 
+def default_choice_terminates(lib: Any, rs: RefSchema) -> bool:
+    """Upstream documents that default instances follow the first type of an expression / first member of a
+    group and that a schema whose first choice needs itself overflows the stack. Such schemas are outside
+    'well-founded'. The library's own default choice is consulted here for *steering only* (which random
+    schemas are used), never for a verdict."""
+    import sys
+
+    old = sys.getrecursionlimit()
+    sys.setrecursionlimit(600)
+    try:
+        for t in rs.node_names:
+            if rs.generatable[t]:
+                try:
+                    if lib.nodes[t].create_and_fill() is None:
+                        return False
+                except Exception:  # noqa: BLE001
+                    return False
+        return True
+    finally:
+        sys.setrecursionlimit(old)
+
+
 def random_schema(R: Draw, tries: int = 6) -> dict | None:
     """A random spec that both the reference and the library accept and that is well-founded."""
     from prosemirror.model import Schema
@@ -408,8 +430,10 @@ def random_schema(R: Draw, tries: int = 6) -> dict | None:
         if not well_founded(rs):
             continue
         try:
-            Schema(copy.deepcopy(spec))
+            lib = Schema(copy.deepcopy(spec))
         except Exception:  # noqa: BLE001, S112  agreement on rejection is C06's job
+            continue
+        if not default_choice_terminates(lib, rs):
             continue
         return spec
     return None
